@@ -10,6 +10,7 @@ the theorems are inductions over the iteration list. Hypotheses are those of eve
 for the float64 ceiling the Go code computes the returned count with).
 -/
 set_option linter.unusedVariables false
+set_option linter.unusedSimpArgs false
 namespace Sig.GenEq
 open Sig
 
